@@ -702,7 +702,7 @@ func checkC05(r *Run) {
 	}
 	r.floor("r2", "fidRef literals", nlit, 5)
 	nw := 0
-	for _, fa := range m.DB.Fields {
+	for _, fa := range m.fields() {
 		if fa.Key == "p9.fidRef.file" && fa.Write {
 			nw++
 			r.fail("r2", fa.Root.Key+": assignment to fidRef.file", fa.Sel.Pos(), "the File of a reference is replaced after construction")
@@ -1037,7 +1037,11 @@ func (c *ownChecker) deferredReleaseList(fi *FuncInfo, list ast.Expr) bool {
 		ast.Inspect(body, func(m ast.Node) bool {
 			switch v := m.(type) {
 			case *ast.RangeStmt:
-				if objOf(info, v.X) != lst || v.Value == nil {
+				rx := unparen(v.X)
+				if st, isStar := rx.(*ast.StarExpr); isStar {
+					rx = unparen(st.X) // the list is reached through a pointer (decRefAll(&release))
+				}
+				if objOf(info, rx) != lst || v.Value == nil {
 					return true
 				}
 				ev := info.Defs[v.Value.(*ast.Ident)]
@@ -1060,8 +1064,12 @@ func (c *ownChecker) deferredReleaseList(fi *FuncInfo, list ast.Expr) bool {
 				idx := 0
 				for _, f := range tf.Decl.Type.Params.List {
 					for _, nm := range f.Names {
-						if idx < len(v.Args) && objOf(info, v.Args[idx]) == lst {
-							if releasesAll(tf.Decl.Body, info.Defs[nm], depth+1) {
+						if idx < len(v.Args) {
+							a := unparen(v.Args[idx])
+							if u, isAddr := a.(*ast.UnaryExpr); isAddr && u.Op == token.AND {
+								a = unparen(u.X)
+							}
+							if objOf(info, a) == lst && releasesAll(tf.Decl.Body, info.Defs[nm], depth+1) {
 								found = true
 							}
 						}
@@ -1083,9 +1091,18 @@ func (c *ownChecker) deferredReleaseList(fi *FuncInfo, list ast.Expr) bool {
 			if releasesAll(lit.Body, obj, 0) {
 				found = true
 			}
-		} else if releasesAll(d.Call, obj, 0) {
-			found = true // defer decRefAll(release) - but the list is evaluated at the defer: only a literal sees later appends
-			found = false
+		} else {
+			// defer decRefAll(&release): the pointer is evaluated at the defer, the list when the
+			// function runs.  defer decRefAll(release) would see the list as it is now (empty).
+			byPointer := false
+			for _, a := range d.Call.Args {
+				if u, isAddr := unparen(a).(*ast.UnaryExpr); isAddr && u.Op == token.AND && objOf(info, u.X) == obj {
+					byPointer = true
+				}
+			}
+			if byPointer && releasesAll(d.Call, obj, 0) {
+				found = true
+			}
 		}
 		return true
 	})
